@@ -208,6 +208,9 @@ func checkC04(c *Ctx) {
 		return strings.Contains(roleOf(l, v, "", 0), ",arg1)#0")
 	})
 
+	// (2c) a shared root stays reachable while it is re-keyed
+	checkRekeyOrder(c)
+
 	// (3)
 	var dvCall *ssa.Call
 	for _, in := range callsIn(dvt, predStatic(dv)) {
